@@ -254,9 +254,10 @@ Definition enc_packet (p : packet) : bytes :=
 (** protoio.NewDelimitedWriter(..).WriteMsg: varint length, then the message *)
 Definition delimited (b : bytes) : bytes := varint (N.of_nat (length b)) ++ b.
 
-(** MConnection.maxPacketMsgSize(): computed once, with ChannelID 0x01 and EOF set *)
+(** MConnection.maxPacketMsgSize(): computed once, with ChannelID 0xff (the largest channel
+    id: ids >= 0x80 need a two-byte varint; fix 061bd4b) and EOF set *)
 Definition max_packet_msg_size (max_payload : nat) : nat :=
-  length (enc_packet (PktMsg 1 true (repeat 0%N max_payload))).
+  length (enc_packet (PktMsg 255 true (repeat 0%N max_payload))).
 
 (* ------------------------------------------------------------------ *)
 (** * float32 ratio used by sendPacketMsg
